@@ -1193,20 +1193,58 @@ NP._chain('value_getattr_hook', _cast_getattr)
 _orig_discharge = E.discharge
 BUDGET_WORDS = ('cancel', 'timeout', 'resource', 'interrupted')
 _RETRY_EXHAUSTED = [0]
+_UNKNOWN_SECONDS = [0.0]
+UNKNOWN_BUDGET_S = 90.0       # per process: once this much time went into queries that stayed open, the remaining open queries fail fast
+
+
+def _discharge_once(run, formula, npc, nax, rlimit, wall_ms, extra):
+    """same query as engine.discharge (pc[:npc] & axioms[:nax] & extra |= formula), explicit deterministic budget + wall-clock safety net"""
+    import time as _t
+    t0 = _t.time()
+    sv = z3.Solver()
+    sv.set('rlimit', int(rlimit))
+    sv.set('timeout', int(wall_ms))
+    for c in (run.pc if npc is None else run.pc[:npc]):
+        sv.add(c)
+    for c in (run.axioms if nax is None else run.axioms[:nax]):
+        sv.add(c)
+    for c in extra:
+        sv.add(c)
+    lits = pm.all_str_lits()
+    if len(lits) > 1:
+        sv.add(z3.Distinct(*lits))
+    sv.add(z3.Not(formula) if not isinstance(formula, bool) else z3.BoolVal(not formula))
+    r = sv.check()
+    dt = _t.time() - t0
+    if r == z3.unsat:
+        if getattr(E, 'SECOND_SOLVER', False):
+            E._second_opinion(sv)
+        return 'unsat', None, dt
+    if r == z3.sat:
+        return 'sat', sv.model(), dt
+    return 'unknown', sv.reason_unknown(), dt
 
 
 def discharge_retry(run, formula, npc=None, nax=None, timeout_ms=10000, extra=(), rlimit=None):
+    """engine.discharge with: z3 `rlimit` as the budget (timeout_ms * 2500, deterministic); a wall-clock safety net of max(30 s, 5 x timeout_ms)
+    (>= 20x the typical 0.05 s of an obligation of these checks); a budget-caused `unknown` retried twice with a fresh solver and 2x / 4x the
+    rlimit before it is reported; and a per-process cap on the time spent on queries that stay open (a tree on which obligations genuinely
+    fail): past it the remaining open queries get a 20x smaller rlimit and no retries -- they come out `unknown` = undecided (or are decided
+    by the bounded native search), never as a verdict.  Queries that are `unsat` quickly (every query on a tree where the property holds)
+    are not affected by any of the wall-clock figures."""
     base = rlimit if rlimit is not None else int(timeout_ms) * 2500
-    v, m, dt = _orig_discharge(run, formula, npc, nax, timeout_ms=timeout_ms, extra=extra, rlimit=base)
+    wall = max(30000, int(timeout_ms) * 5)
+    spent = _UNKNOWN_SECONDS[0] > UNKNOWN_BUDGET_S
+    v, m, dt = _discharge_once(run, formula, npc, nax, base // 20 if spent else base, wall, extra)
     k = 0
-    # (after two queries of this process stayed open through both retries the family is genuinely hard -- typically an obligation that
-    # does not hold, with quantifiers: the bounded native search decides it; further retries would only burn time)
-    while v == 'unknown' and k < 2 and _RETRY_EXHAUSTED[0] < 2 and any(w in str(m).lower() for w in BUDGET_WORDS):
+    while v == 'unknown' and not spent and k < 2 and _RETRY_EXHAUSTED[0] < 2 and any(w in str(m).lower() for w in BUDGET_WORDS):
         k += 1
-        v, m, dt2 = _orig_discharge(run, formula, npc, nax, timeout_ms=timeout_ms * 2 ** k, extra=extra, rlimit=base * 2 ** k)
+        v, m, dt2 = _discharge_once(run, formula, npc, nax, base * 2 ** k, wall, extra)
         dt += dt2
         if k == 2 and v == 'unknown':
             _RETRY_EXHAUSTED[0] += 1
+    if v == 'unknown':
+        _UNKNOWN_SECONDS[0] += dt
     return v, m, dt
 
 
